@@ -7,6 +7,7 @@ line formats (shared with lean/Driver.lean)
   nmea|<op>;<op>;…    P<hex> process  R restart          output: rx=<frames_rx>
 """
 import copy
+import pickle
 import zlib
 
 from lib import frame, fletcher, nmea as nmea_sentence
@@ -61,7 +62,24 @@ def parse_cids(s):
     return out
 
 
-FEED = 'PALMIG'       # process() given bytes / bytearray / list / memoryview / iterator / generator: any iterable of byte values
+FEED = 'PALMIGO'      # process() given bytes / bytearray / list / memoryview / iterator / generator: any iterable of byte values;
+                      # O<n>:<hex>: process(bytes) with ANOTHER parser object parsing a frame of its own at the n-th line executed
+
+
+def feed_bytes(op):
+    return bytes.fromhex(op[1:].split(':')[1] if op[0] == 'O' else op[1:])
+
+
+def meanwhile_ubx():
+    q = UbxParser(UbxCID(*CRC))
+    q.set_filters([UbxCID(1, 7), UbxCID(5, 1)])
+    q.process(frame(1, 7, b'\x01\x02\x03') + b'\xb5\x62\x05\x01\x02')
+    q.packet()
+
+
+def meanwhile_nmea():
+    q = NmeaParser()
+    q.process(b'$GPGGA,1*52\r\n$GPGLL,')
 
 
 def as_container(kind, b):
@@ -83,6 +101,7 @@ class UbxRun:
 
     def __init__(self):
         self.p = UbxParser(UbxCID(*CRC))
+        self.filter_list = None
         self.out, self.handed, self.exc = [], [], None      # handed: (payload object, copy at hand-out time)
 
     def step(self, op):
@@ -94,7 +113,10 @@ class UbxRun:
         p, out, handed = self.p, self.out, self.handed
         try:
             if op[0] in FEED:
-                p.process(as_container(op[0], bytes.fromhex(op[1:])))
+                if op[0] == 'O':
+                    realenv.interleaved(lambda: p.process(feed_bytes(op)), int(op[1:].split(':')[0]), meanwhile_ubx)
+                else:
+                    p.process(as_container(op[0], feed_bytes(op)))
             elif op == 'K':
                 cid, data = p.packet()
                 if data is not None:
@@ -113,6 +135,17 @@ class UbxRun:
                 p.restart()
             elif op[0] == 'T':
                 realenv.CLK.ticks += int(op[1:])      # time passes (or the wall clock is stepped) between two calls
+            elif op[0] == 'C':
+                # the history goes on with a copy of the parser, taken wherever it is (in the middle of a frame, too)
+                self.p = p = [copy.deepcopy, lambda x: pickle.loads(pickle.dumps(x)), copy.copy][int(op[1:] or 0) % 3](p)
+            elif op[0] == 'H':
+                # the application keeps ONE filter list: changes it in place and passes the same object again
+                new = parse_cids(op[1:])
+                if self.filter_list is None:
+                    self.filter_list = new
+                else:
+                    self.filter_list[:] = new
+                p.set_filters(self.filter_list)
             elif op == 'E':
                 p.empty_queue()
             elif op[0] == 'F':
@@ -144,11 +177,16 @@ class NmeaRun:
             return
         try:
             if op[0] in FEED:
-                self.p.process(as_container(op[0], bytes.fromhex(op[1:])))
+                if op[0] == 'O':
+                    realenv.interleaved(lambda: self.p.process(feed_bytes(op)), int(op[1:].split(':')[0]), meanwhile_nmea)
+                else:
+                    self.p.process(as_container(op[0], feed_bytes(op)))
             elif op == 'R':
                 self.p.restart()
             elif op[0] == 'T':
                 realenv.CLK.ticks += int(op[1:])
+            elif op[0] == 'C':
+                self.p = [copy.deepcopy, lambda x: pickle.loads(pickle.dumps(x)), copy.copy][int(op[1:] or 0) % 3](self.p)
         except Exception as e:
             self.exc = 'EXC:' + exc_name(e)
 
@@ -301,7 +339,7 @@ def spec_ubx(line):
     pieces = []              # every scanned segment, for the cross-check against Lean
     for op in ops:
         if op[0] in FEED:
-            for kind, c, d, pl, _, _ in sc.feed(bytes.fromhex(op[1:])):
+            for kind, c, d, pl, _, _ in sc.feed(feed_bytes(op)):
                 if kind == 'frame':
                     rx += 1
                     if filt and (c, d) in filt:
@@ -318,7 +356,7 @@ def spec_ubx(line):
             sc = Scanner()
         elif op == 'E':
             queue.clear()
-        elif op[0] in 'FS':
+        elif op[0] in 'FSH':
             filt = [tuple(map(int, x.split(':'))) for x in op[1:].split(',')] if len(op) > 1 else []
     pieces.append(bytes(sc.s))
     return ' '.join(out + [f'rx={rx}', 'stable=true']), pieces
@@ -332,11 +370,11 @@ def features_ubx(line):
     ops = line.split('|', 1)[1].split(';')
     first_p = next((i for i, o in enumerate(ops) if o[0] in FEED), len(ops))
     mid = ops[first_p:]
-    stream = b''.join(bytes.fromhex(o[1:]) for o in ops if o[0] in FEED)
+    stream = b''.join(feed_bytes(o) for o in ops if o[0] in FEED)
     evs = scan_pos(stream)
     return {
         'restart': any(o == 'R' for o in ops),
-        'midfilter': any(o[0] in 'FS' for o in mid),
+        'midfilter': any(o[0] in 'FSH' for o in mid),
         'empty': any(o == 'E' for o in ops),
         'long': any(e[0] == 'long' for e in evs),
         'frames': sum(e[0] == 'frame' for e in evs), 'bad': sum(e[0] == 'bad' for e in evs),
@@ -350,12 +388,12 @@ def occurrence_check(line, real_out):
     distinct, non-overlapping, checksum-valid occurrence in the input, in stream order, and was in the filter.
     (only for lines without restart / empty_queue / filter changes after the first chunk)"""
     ops = line.split('|', 1)[1].split(';')
-    stream = b''.join(bytes.fromhex(o[1:]) for o in ops if o[0] in FEED)
+    stream = b''.join(feed_bytes(o) for o in ops if o[0] in FEED)
     filt = None
     for o in ops:
         if o[0] in FEED:
             break
-        if o[0] in 'FS':
+        if o[0] in 'FSH':
             filt = [tuple(map(int, x.split(':'))) for x in o[1:].split(',')] if len(o) > 1 else []
     pos = 0
     for tok in real_out.split(' '):
@@ -454,7 +492,7 @@ def oracles_nmea(line, real_out):
     pieces, seg = [], bytearray()
     for o in ops:
         if o[0] in FEED:
-            seg += bytes.fromhex(o[1:])
+            seg += feed_bytes(o)
         elif o == 'R':
             pieces.append(bytes(seg))
             seg = bytearray()
@@ -616,6 +654,29 @@ def with_containers(rng, ln):
     return kind + '|' + ';'.join((rng.choice([k, k, 'P']) + o[1:]) if o[0] == 'P' else o for o in ops.split(';'))
 
 
+def with_copies(rng, ln):
+    """the history goes on with a copy of the parser (C<k>: deepcopy, pickle round trip, copy) at one or two points; filter
+    changes re-use ONE list object (H instead of F)"""
+    kind, ops = ln.split('|', 1)
+    ops = ops.split(';')
+    if kind == 'ubx' and rng.random() < 0.5:
+        ops = [('H' + o[1:]) if o[0] == 'F' and len(o) > 1 else o for o in ops]
+    if rng.random() < 0.7 or kind != 'ubx':
+        for _ in range(rng.choice([1, 1, 2])):
+            ops.insert(rng.randrange(len(ops) + 1), f'C{rng.randrange(3)}')
+    return kind + '|' + ';'.join(ops)
+
+
+def with_meanwhile(rng, ln):
+    """one or two of the chunks are processed while another parser object parses something of its own in the middle"""
+    kind, ops = ln.split('|', 1)
+    ops = ops.split(';')
+    idx = [k for k, o in enumerate(ops) if o[0] == 'P' and len(o) > 1]
+    for k in rng.sample(idx, min(len(idx), rng.choice([1, 1, 2]))):
+        ops[k] = f'O{rng.choice([1, 2, 3, 5, 8, 13, 21, 40, 80])}:' + ops[k][1:]
+    return kind + '|' + ';'.join(ops)
+
+
 def with_time(rng, ln):
     """time passes between two calls - a second, an hour, a year - or the wall clock is stepped back (a host that sets its
     clock from the receiver it is talking to)"""
@@ -649,6 +710,10 @@ def gen_ubx(rng, n, profile):
             ln = with_time(rng, ln)
         if rng.random() < 0.1:
             ln = with_containers(rng, ln)
+        if rng.random() < 0.12:
+            ln = with_copies(rng, ln)
+        if rng.random() < 0.1:
+            ln = with_meanwhile(rng, ln)
         yield ln
         if rng.random() < 0.2 and len(ln) < 4000:
             hold.append(ln)
@@ -689,6 +754,16 @@ def gen_ubx1(rng, n, profile):
             yield 'ubx|' + ';'.join(ops + ['K', 'D', 'K'])
 
 
+def long_sentence(rng, valid=True):
+    """a sentence longer than the 82 characters NMEA 0183 allows its own: u-blox's proprietary ones ($PUBX,00 about 110, $PUBX,03
+    several hundred) - well-formed is what has a matching checksum"""
+    body = b'PUBX,03,' + bytes(rng.choice(b'0123456789,.-UeN') for _ in range(rng.choice([75, 76, 100, 250, 504, 505, 700, 1500])))
+    x = 0
+    for b in body:
+        x ^= b
+    return b'$' + body + b'*' + (b'%02X' % (x if valid else x ^ 1)) + b'\r\n'
+
+
 def nmea_stream(rng):
     s = bytearray()
     for _ in range(rng.randrange(1, 6)):
@@ -700,6 +775,9 @@ def nmea_stream(rng):
             s += frame(1, 7, bytes(rng.randrange(256) for _ in range(4)))
             continue
         body = bytes(rng.choice(b'GPRMC,12.5AN$*') if rng.random() < .9 else rng.randrange(256) for _ in range(rng.randrange(0, 14)))
+        if rng.random() < 0.08:
+            # a long sentence (proprietary ones are not held to 82 characters): hundreds to thousands of body bytes, no '$' or '*'
+            body = bytes(rng.choice(b'PUBX,03.5AN-0123456789') for _ in range(rng.choice([82, 83, 84, 200, 255, 256, 511, 512, 513, 700, 1023, 1025, 2500, 4097])))
         if rng.random() < 0.15:
             # text that is well-formed in some multi-byte encoding (UTF-8, UTF-16, Latin-1): to the parser these are just bytes
             body = body[:4] + rng.choice(['é', 'Zürich', '€', '😀', 'ß*', 'ñ$']).encode(rng.choice(['utf-8', 'utf-8', 'latin-1', 'utf-16-le'])
@@ -733,6 +811,10 @@ def gen_nmea(rng, n, profile):
             ln = with_time(rng, ln)
         if rng.random() < 0.1:
             ln = with_containers(rng, ln)
+        if rng.random() < 0.12:
+            ln = with_copies(rng, ln)
+        if rng.random() < 0.1:
+            ln = with_meanwhile(rng, ln)
         yield ln
         if rng.random() < 0.2 and len(ln) < 4000:
             hold.append(ln)
